@@ -648,9 +648,29 @@ def gen_C08(tier, seed):
     return out
 
 
+def gen_doy_accessor(tier, seed):
+    """day-of-year accessor cases (C09 states it agrees with the fields, C20 states its value): first and last instants of years,
+    and UTC epochs after each inserted second, mid-year insertions in particular (the count in the year must not include it)"""
+    out = []
+    rd = random.Random(seed * 41 + 9)
+    for t in INT_SCALES:
+        for y in (1, 4, 100, 400, 1899, 1900, 1972, 1981, 1992, 1997, 2000, 2012, 2015, 2016, 2023, 2024, 9999):
+            for off in (0, 1, NPD - 1, NPD, 59 * NPD, 181 * NPD, 182 * NPD, 183 * NPD + 5, 364 * NPD + NPD - 1, 365 * NPD - 1):
+                v = days_from_civil(y, 1, 1) * NPD + off - REF_NS.get(t, 0)
+                out.append(f"doy {p3(parts_of(v) + (t,))}")
+    for ts_ in LEAP_TS:                      # UTC counts shortly after each insertion and half a year later
+        for off in (0, 1, SEC, NPD, 100 * NPD, 183 * NPD):
+            out.append(f"doy {p3(parts_of(ts_ * SEC + off) + (4,))}")
+    for _ in range(budget(tier, 1500, 100000)):
+        y = rd.choice([rd.randint(1, 9999), rd.randint(1960, 2030)]); t = rd.choice(INT_SCALES)
+        v = days_from_civil(y, 1, 1) * NPD + rd.randint(0, (366 if is_leap(y) else 365) * NPD - 1) - REF_NS.get(t, 0)
+        out.append(f"doy {p3(parts_of(v) + (t,))}")
+    return out
+
+
 def gen_C09(tier, seed):
     g = EGen(seed)
-    out = corpus("C09")
+    out = corpus("C09") + gen_doy_accessor(tier, seed)
     step = 1 if tier == "thorough" else 17
     for n in day_iter(1, 9999, step):
         for tod in (0, NPD - 1):
